@@ -90,3 +90,13 @@ Theorem C04_rev_range_call_by_call : forall ld root levels bstore, wf_store ld r
                = Done (it', map Some (rev (range_spec (content root levels bstore) lo hi)) ++ [None])).
 Proof. exact rev_range_calls. Qed.
 Print Assumptions C04_rev_range_call_by_call.
+
+(* the step from the collected list to the single calls is generic in the iterator and its starting state:
+   whatever collect returns determines every call, so the C04_written / C05_written theorems (and the empty
+   file, C01_empty_file) read call by call in the same way *)
+Theorem C04_collect_determines_calls : forall (next : iter -> outcome (iter * option entry)) fuel it l,
+  collect next fuel it = Done l ->
+  (forall n, (n <= length l)%nat -> exists it', calls next n it = Done (it', map Some (firstn n l))) /\
+  (exists it', calls next (S (length l)) it = Done (it', map Some l ++ [None])).
+Proof. exact collect_determines_calls. Qed.
+Print Assumptions C04_collect_determines_calls.
